@@ -3,7 +3,7 @@
 Texts t from LiteralGen.tla (alphabet: ASCII punctuation, inner blanks, non-ASCII letters /
 punctuation / blanks / format characters, control characters for the backslash form) in four
 spellings (backslash before every ASCII punctuation character; decimal, hexadecimal and named
-character references) placed in eight contexts (paragraph, ATX heading, emphasis, link text, image
+character references) placed in ten contexts (paragraph, ATX heading, emphasis, strong emphasis, strikethrough, link text, image
 description, link title in two quote styles, table cell) under commonmark and js-default with
 table/strikethrough on.  LiteralTrace.tla recomputes the escaped spelling and the document,
 evaluates the quantifier's side conditions, computes the expected HTML and requires equality.
